@@ -6,6 +6,7 @@
                                     (testbit (cneg c) v = true -> testbit m v = false) *)
 From Coq Require Import List NArith Bool Sorting.Sorted.
 From V Require Proofs.ExprsTie2.   (* expressions of cube.rs / ecube.rs / bdd.rs / canonization.rs, regenerated from the Rust source, equal the model's *)
+From V Require Import Checkers.Check Proofs.CheckSoundCube.   (* the extracted checkers and their soundness proofs, pinned at the end of this file *)
 From V Require Import Base.Res Model.Kernels Model.TwoLevel Spec.Bfun Proofs.CubeProofs.
 Import ListNotations.
 Open Scope N_scope.
@@ -203,3 +204,70 @@ Print Assumptions C12_neg_vars.
 Print Assumptions C12_all_complete.
 Print Assumptions C12_all_count.
 Print Assumptions C12_reachable_canon.
+
+
+(* ---- soundness of the extracted checkers that decide this property's statement on the implementation's results *)
+Theorem C12_checker_spec_cube_value_eq : forall c m,
+  c32 c -> spec_cube_value c m = cube_value c m.
+Proof. exact CheckSoundCube.spec_cube_value_eq. Qed.
+
+Theorem C12_checker_cube_value_iff : forall c m r,
+  c32 c -> (chk_cube_value c m r = true <-> r = cube_value c m).
+Proof. exact CheckSoundCube.chk_cube_value_iff. Qed.
+
+Theorem C12_checker_cube_within_iff : forall k c,
+  cube_within k c = true <-> (cpos c < 2 ^ N.of_nat k /\ cneg c < 2 ^ N.of_nat k) \/ c = cube_zero.
+Proof. exact CheckSoundCube.cube_within_iff. Qed.
+
+Theorem C12_checker_cube_and_iff : forall k a b r,
+  (k <= 32)%nat -> cube_within k a = true -> cube_within k b = true ->
+  (chk_cube_and k a b r = true <-> r = cube_and a b).
+Proof. exact CheckSoundCube.chk_cube_and_iff. Qed.
+
+Theorem C12_checker_cube_and_unique : forall k a b r,
+  (k <= 32)%nat -> cube_within k a = true -> cube_within k b = true ->
+  chk_cube_and k a b r = true -> r = cube_and a b.
+Proof. exact CheckSoundCube.chk_cube_and_unique. Qed.
+
+Theorem C12_checker_cube_intersects_iff : forall k a b r,
+  (k <= 32)%nat -> cube_within k a = true -> cube_within k b = true ->
+  (chk_cube_intersects k a b r = true <-> r = cube_intersects a b).
+Proof. exact CheckSoundCube.chk_cube_intersects_iff. Qed.
+
+Theorem C12_checker_cube_intersects_sem : forall k a b r,
+  (k <= 32)%nat -> cube_within k a = true -> cube_within k b = true ->
+  (chk_cube_intersects k a b r = true <->
+   (r = true <-> exists m, m < 2 ^ 32 /\ cube_value a m = true /\ cube_value b m = true)).
+Proof. exact CheckSoundCube.chk_cube_intersects_sem. Qed.
+
+Theorem C12_checker_cube_implies_iff : forall k a b r,
+  (k <= 32)%nat -> cube_within k a = true -> cube_within k b = true ->
+  canon a -> canon b -> (chk_cube_implies k a b r = true <-> r = cube_implies a b).
+Proof. exact CheckSoundCube.chk_cube_implies_iff. Qed.
+
+Theorem C12_checker_cube_implies_sem : forall k a b r,
+  (k <= 32)%nat -> cube_within k a = true -> cube_within k b = true ->
+  (chk_cube_implies k a b r = true <->
+   (r = true <-> forall m, m < 2 ^ 32 -> cube_value a m = true -> cube_value b m = true)).
+Proof. exact CheckSoundCube.chk_cube_implies_sem. Qed.
+
+Theorem C12_checker_cube_implies_lut_iff : forall n c t r,
+  c32 c ->
+  (chk_cube_implies_lut n c t r = true <-> r = cube_implies_lut c n t).
+Proof. exact CheckSoundCube.chk_cube_implies_lut_iff. Qed.
+
+Theorem C12_checker_text_cube : forall c ms w,
+  c32 c -> chk_text (cube_display c) (spec_cube_value c) ms w = true.
+Proof. exact CheckSoundCube.chk_text_cube. Qed.
+
+Print Assumptions C12_checker_spec_cube_value_eq.
+Print Assumptions C12_checker_cube_value_iff.
+Print Assumptions C12_checker_cube_within_iff.
+Print Assumptions C12_checker_cube_and_iff.
+Print Assumptions C12_checker_cube_and_unique.
+Print Assumptions C12_checker_cube_intersects_iff.
+Print Assumptions C12_checker_cube_intersects_sem.
+Print Assumptions C12_checker_cube_implies_iff.
+Print Assumptions C12_checker_cube_implies_sem.
+Print Assumptions C12_checker_cube_implies_lut_iff.
+Print Assumptions C12_checker_text_cube.
